@@ -16,14 +16,15 @@ func LangTagConverter(century int, dateFormat DateFormat) func(float64, string, 
 		TAG = 0
 		P1 = 0
 		P2 = 0
-		for ok := true; ok; ok = P1 == 0 {
+		// the searches end with the year: at low latitudes the day never gets longer than 14 h / 16 h
+		for ok := true; ok; ok = P1 == 0 && TAG < 366 {
 			TAG++
 			DL, _, _, _, _, _, _ := CalculateDayLenght(float64(TAG), LAT)
 			if DL > 14 {
 				P1 = TAG
 			}
 		}
-		for ok := true; ok; ok = P2 == 0 {
+		for ok := true; ok; ok = P2 == 0 && TAG < 366 {
 			TAG++
 			DL, _, _, _, _, _, _ := CalculateDayLenght(float64(TAG), LAT)
 			if DL > 16 {
